@@ -98,7 +98,8 @@ RULES = {1: "received a value that was never emitted", 2: "received an event of 
          9: "Emit returned although the subscriber's channel was full (dropped)",
          10: "consumer waiting but an emitted event / the retained event was not delivered",
          11: "panic", 12: "an operation never returned (deadlock)",
-         13: "a call is blocked at quiescence although no stalled (unread, unclosed) subscription it may wait for exists (deadlock)",
+         13: "a call is blocked at quiescence although no stalled (unread, unclosed) subscription it may wait for exists - "
+             "the channel of a Subscribe call that returned an error is nobody's subscription (deadlock)",
          14: "Close of a typed subscription returned but its channel is not closed: a receive is still unanswered at quiescence (a Close call returned before the subscription was detached)"}
 
 
@@ -132,6 +133,15 @@ def show_label(l, emits):
     return {4: "PANIC", 5: "end"}.get(k, str(l))
 
 
+def sub_name(w, cap, tys):
+    if w >= 2:
+        # a Subscribe call that must be rejected: the valid types with one invalid entry inserted
+        l = ["new(T%d)" % x for x in tys]
+        l.insert(min((w - 2) // 2, len(l)), "nil" if (w - 2) % 2 else "5")
+        return "REJECTED Subscribe([%s]) cap%d" % (", ".join(l), cap)
+    return ("wildcard" if w == 1 else "types%s" % tys) + " cap%d" % cap
+
+
 def describe(t):
     try:
         nt, ems, subs, emits, labs = parse(t)
@@ -139,7 +149,7 @@ def describe(t):
         return {"raw": t[:120]}
     return {"types": nt,
             "emitters": ["type%d%s" % (ty, " stateful" if sf else "") for ty, sf in ems],
-            "subs": [("wildcard" if w else "types%s" % tys) + " cap%d" % cap for w, cap, tys in subs],
+            "subs": [sub_name(w, cap, tys) for w, cap, tys in subs],
             "emits": ["emitter%d ev%d" % e for e in emits],
             "trace": [show_label(l, emits) for l in labs][:150]}
 
@@ -207,7 +217,7 @@ def key(tag, toks, d):
             ops = "".join("%d%d" % (k, a if k in (0, 1) else 0) for k, a, b, v in labs[:pos + 1])
             return "C15:rule13:blocked-%s:%s" % (OPS.get(d[3], d[3]), ops[-80:])
         s = d[3] if len(d) > 3 else -1
-        shape = ("wild" if subs[s][0] else "typed%d" % len(subs[s][2])) + ":cap%d" % subs[s][1] if 0 <= s < len(subs) else "-"
+        shape = ("rejected" if subs[s][0] >= 2 else "wild" if subs[s][0] else "typed%d" % len(subs[s][2])) + ":cap%d" % subs[s][1] if 0 <= s < len(subs) else "-"
         ops = "".join("%d%d" % (k, a if k in (0, 1) else 0) for k, a, b, v in labs[:pos + 1])
     except Exception:
         shape, ops = "?", "?"
@@ -225,6 +235,7 @@ if __name__ == "__main__":
         "sequential consistency at the granularity of the listed atomic steps: mutex-protected sections without channel operations are one step; each channel send/receive/close is one step; a lock held across sends has an explicit holder",
         "basicBus.lk protects only non-blocking sections since fix 8aeecd5 (withNode: lookup + pending++; tryDropNode: pending/TryLock check), each modelled as one atomic step; metrics/logging ignored; the 1 s slow-consumer timer only logs (exercised in the harness under virtual time, not modelled)",
         "a Go channel is a FIFO holding at most cap + (number of waiting receivers) items; the Close drainer is a permanently waiting receiver",
+        "operation alphabet includes the REJECTED Subscribe call (an invalid entry - a non-pointer value or an untyped nil - in front of, between or behind 0-2 valid types, any buffer size): modelled as the subscription wired to no type (styps = Some []), two visible steps (start, error return) that change nothing but the call's own program counter (c15_rejected_subscribe_is_noop / _never_blocks; faithful because basic.go validates every entry in a loop of its own before the wiring loop); the nil entry makes reflect.TypeOf(nil).Kind() panic in the CALLER's goroutine inside that validation loop - the harness recovers it and records it as the rejection (not judged by 'never panics', which the text states for closing concurrently with emits); no receive / Close is issued for a rejected call. Monitor rule 13: a rejected call (error return seen) is never a legitimate reason for a blocked operation (o_root); proved for every model trace via c15_error_return_only_when_rejected",
         "types of one Subscribe call are distinct; event values are distinguishable (unique ids); one Close call per subscription (closeOnce not modelled)",
         "no deadlock is proved as a state-predicate progress theorem (c15_no_deadlock: every reachable state with an unfinished operation has an enabled non-stimulus step, given that every full open channel has a receive pending or is being closed), not as liveness under fairness (DESIGN.md section 10)",
         "monitor-accepts-model is a theorem (c15_monitor_accepts_model): for every well-formed configuration and every DISCIPLINED schedule (stimuli only at quiescent states: what the harness does and what conform_case searches, c15_accepted_run_is_disciplined) the monitor run on the WIRE line of the run (decode/encode round trip proved: c15_wire_round_trip, c15_monitor_case_on_runs) answers []; proved clause by clause with the monitor's own functions: rules 1-10 (c15_monitor_rule1..10; rules 4, 9, 10 use the discipline), 11 (no panic label in a model trace), 12 (from rule 13, under final_ok: quiescent end state, every returned Subscribe closing, no Subscribe still in flight - the last conjunct excludes exactly the known crossing-Subscribe deadlock), 13 (c15_monitor_rule13_accepts_model). Hypotheses of the theorem that are not proved of the harness: that the real harness only writes a stimulus at a quiescent point (its settle loop reads goroutine states) and writes the end marker only in a final_ok situation. Emitter.Close/closed-emitter error path; node drop semantics of `stateful` (DESIGN.md section 9 item 12: the monitor demands the retained event only while a stateful emitter of the type stayed open)",
@@ -240,7 +251,7 @@ if __name__ == "__main__":
         harness=harness, replay_harness=replay_harness, warm=warm,
         nontrivial=nontrivial,
         rule="seeded random scripts against the real bus inside a testing/synctest bubble: 2 event types (3 in some thorough runs) + wildcard, "
-             "1-3 subscriptions (typed / two-type / wildcard) with buffer sizes {0,1,4}, 2-3 emitters (stateful or not), 3-8 Emit calls; every operation "
+             "1-3 subscriptions (typed / two-type / wildcard) with buffer sizes {0,1,4}, in 1 of 3 runs also a REJECTED Subscribe call (invalid entry first / middle / last / alone, non-pointer or nil) plus 26 directed histories around one (more Emits of each listed type than its buffer holds, with and without a live reader, stateful replay), 2-3 emitters (stateful or not), 3-8 Emit calls; every operation "
              "(Emitter(), Emit, Subscribe, Subscription.Close, Emitter.Close) runs in its own goroutine, the main goroutine issues one stimulus at a time "
              "(operation start or consumer receive) after all other goroutines are blocked, so interleavings (emit blocked on a full sink while another "
              "emit / subscribe / close / emitter-close starts, close at every point, reads at arbitrary pace) are forced from outside; virtual time passes "
